@@ -38,6 +38,8 @@ type C12Case struct {
 	MissingDir int        `json:"missing_dir"` // -1: all four directories exist
 	Nested     [8]bool    `json:"nested"`      // candidate k of class c (index 4*c+k) lives in a nested sub-directory
 	Others     []int      `json:"others"`      // directories that also hold a valid config of some other device
+	// Linked: candidate k of class c (index 4*c+k) is a symbolic link to a file kept elsewhere (a dotfiles directory)
+	Linked [8]bool `json:"linked,omitempty"`
 	// Resave: after the first load every candidate file is saved again in place (same path, same length, other content:
 	// the mapping name in capitals) and everything is loaded again, as after a change notification. 2: the file that was
 	// served is made invalid by that edit (same length), so the next one in the order has to be served.
@@ -105,7 +107,7 @@ func c12Setup(c *C12Case) (string, error) {
 		}
 		return os.WriteFile(p, data, 0o644)
 	}
-	if err := c12WriteCandidates(c, write, false, -1, -1); err != nil {
+	if err := c12WriteCandidates(root, c, write, false, -1, -1); err != nil {
 		return root, err
 	}
 	for i, dir := range c.Others {
@@ -144,7 +146,7 @@ func c12Setup(c *C12Case) (string, error) {
 
 // c12WriteCandidates writes the (up to) eight candidate files. upper: the mapping names in capitals (a second version of
 // the same length); (brokenClass, brokenK): that file gets an unsupported collision mode, again without changing its length.
-func c12WriteCandidates(c *C12Case, write func(dir int, name string, data []byte) error, upper bool, brokenClass, brokenK int) error {
+func c12WriteCandidates(root string, c *C12Case, write func(dir int, name string, data []byte) error, upper bool, brokenClass, brokenK int) error {
 	zero := [4]uint16{}
 	for class, present := range [][4]bool{c.Kbd, c.Pad} { // class 0 keyboard, 1 gamepad
 		cls := []string{"kbd", "pad"}[class]
@@ -172,6 +174,24 @@ func c12WriteCandidates(c *C12Case, write func(dir int, name string, data []byte
 			text := c12Config(tag, id)
 			if class == brokenClass && k == brokenK {
 				text = strings.Replace(text, `collision_mode = "interrupt"`, `collision_mode = "interrupT"`, 1)
+			}
+			if c.Linked[4*class+k] {
+				// the file lives in a dotfiles directory next to hidi-config; the configuration directory holds a link to it
+				target := fmt.Sprintf("../../../dotfiles/%s-%d.toml", cls, k)
+				if c.Nested[4*class+k] {
+					target = "../../" + target
+				}
+				if err := write(dir, filepath.Join(filepath.Dir(name), target), []byte(text)); err != nil {
+					return err
+				}
+				link := filepath.Join(root, c12Dirs[dir], name)
+				_ = os.MkdirAll(filepath.Dir(link), 0o755)
+				if _, err := os.Lstat(link); err != nil {
+					if err := os.Symlink(target, link); err != nil {
+						return err
+					}
+				}
+				continue
 			}
 			if err := write(dir, name, []byte(text)); err != nil {
 				return err
@@ -334,7 +354,7 @@ func checkC12(c C12Case) (bool, *Violation) {
 				brokenClass = 0
 			}
 		}
-		if err := c12WriteCandidates(&c, write, true, brokenClass, brokenK); err != nil {
+		if err := c12WriteCandidates(root, &c, write, true, brokenClass, brokenK); err != nil {
 			v = violation("C12", "harness", "", "cannot rewrite the fixture: %v", err)
 			return
 		}
@@ -351,6 +371,9 @@ func checkC12(c C12Case) (bool, *Violation) {
 	nontrivial := len(c.Noise) > 0 || c.MissingDir >= 0
 	for _, nst := range c.Nested {
 		classifyIf(nst, "a candidate file in a nested sub-directory")
+	}
+	for _, l := range c.Linked {
+		classifyIf(l, "a candidate file that is a symbolic link")
 	}
 	return nontrivial, v
 }
@@ -416,6 +439,9 @@ func genC12(t *rapid.T) C12Case {
 	}
 	if rapid.IntRange(0, 4).Draw(t, "missing") == 0 {
 		c.MissingDir = rapid.IntRange(0, 3).Draw(t, "missingDir")
+	}
+	for i := range c.Linked {
+		c.Linked[i] = rapid.IntRange(0, 5).Draw(t, "linked") == 0
 	}
 	if c.MissingDir < 0 {
 		c.Resave = rapid.SampledFrom([]int{0, 0, 0, 1, 2}).Draw(t, "resave")
